@@ -3,7 +3,8 @@
    Model: Model/RpState.v — per issuer one client (configuration, state store db : state -> record,
    key map : nonce / sub -> state); a world is the issuer2rp table of an RPHandler; operations are
    OBegin / OAuthz / OToken / OUserinfo / ORoutedToken / ORefresh / ORoutedRefresh / ORoutedUserinfo with
-   responses the adversary recombines freely. *)
+   responses the adversary recombines freely; look-ups through a state value are probes (PIssuer = state2issuer,
+   PSession = get_session_information). *)
 From Coq Require Import String.
 From Verif Require Import Lib.Base Lib.PyStr Lib.RpTy Gen.RpTables Model.IdToken Model.RpState Model.RpExamples
      Proofs.IdToken_proofs Proofs.RpState_proofs.
@@ -220,6 +221,109 @@ Example C09_backchannel_nonvacuous :
   (let w3 := fst (step ex_lhash w2 (ORoutedUserinfo S2 [(PS "sub", VStr (PS "bob")); (PS "state", VStr S1)])) in
    stored_at w3 S2 (PS "sub") = Some (VStr (PS "bob")) /\ rec_of w3 ex_iss S1 = rec_of w2 ex_iss S1) /\
   step ex_lhash w2 (ORoutedUserinfo S2 [(PS "sub", VStr (PS "diana")); (PS "state", VStr S1)]) = (w2, Err ValueError).
+Proof. vm_compute. repeat split. Qed.
+
+(* ---- a value the relying party's stores KNOW under another role is not a state ----
+   Next to the session records (cl_db: state -> record, created by begin / init_authorization) a client keeps ONE
+   map for everything bound to a session (cl_map = Current._map: nonce -> state, subject -> state, session id ->
+   state, state of a logout request -> state).  Only a key of the record store is a state.  The nonce of this or
+   another pending flow, a bound subject, a bound session id, a key of another client's stores behind the same
+   RPHandler, presented AS the state of an authorization response, as the state argument of get_tokens /
+   refresh_access_token / get_user_info, or to the look-ups of the RPHandler, is an unknown state. *)
+
+(* Acceptance requires a key of the RECORD store: whatever operation other than the start of a flow is accepted
+   (handed back without an error member) - authorization response, code exchange, refresh, user info, on a
+   client or routed through the RPHandler - the state it was accepted for is a key of cl_db of the client it was
+   executed on. *)
+Theorem C09_accepted_state_is_record_key : forall lhash w o w' stored,
+  step lhash w o = (w', Ok stored) -> is_begin o = false -> has_key (PS "error") stored = false ->
+  exists i c st, op_target w o = Some i /\ assoc i w = Some c /\ op_mentions o st = true /\
+    accepted_for o stored st /\ has_key st (cl_db c) = true.
+Proof. exact world_accept_record_key. Qed.
+Print Assumptions C09_accepted_state_is_record_key.
+
+(* One client: a key k of its binding map that is not a key of its record store is refused wherever it is
+   presented as a state - an authorization response naming only k changes nothing and hands back at most an error
+   response; get_tokens / refresh_access_token / get_user_info made for k raise KeyError with the client unchanged. *)
+Theorem C09_bound_key_is_not_a_state : forall lhash c k s,
+  assoc k (cl_map c) = Some s -> has_key k (cl_db c) = false ->
+  (forall r now c' out, step_authz lhash c r now = (c', out) ->
+     (forall s', has_entry (PS "state") (VStr s') (r_params r) = true -> s' = k) ->
+     c' = c /\ forall stored, out = Ok stored -> has_key (PS "error") stored = true) /\
+  (forall r now, step_token lhash c k r now = (c, Err KeyError)) /\
+  (forall r now, step_refresh lhash c k r now = (c, Err KeyError)) /\
+  (forall u, step_userinfo c k u = (c, Err KeyError)).
+Proof. exact client_bound_key_not_a_state. Qed.
+Print Assumptions C09_bound_key_is_not_a_state.
+
+(* Histories: after ANY sequence of operations, an operation that presents as its state only values this relying
+   party never issued as a state (for any issuer) is refused - or, for an authorization error response, handed
+   back as it is - and the stores of every client are exactly what they were. *)
+Theorem C09_history_unissued_state_refused : forall lhash cfgs pre o w' out,
+  is_begin o = false ->
+  (forall s, op_mentions o s = true -> forall i, ~ In (i, s) (issued pre)) ->
+  step lhash (run lhash (init_world cfgs) pre) o = (w', out) ->
+  w' = run lhash (init_world cfgs) pre /\ (forall stored, out = Ok stored -> has_key (PS "error") stored = true).
+Proof. exact history_unissued_state_refused. Qed.
+Print Assumptions C09_history_unissued_state_refused.
+
+(* ... so no key of the binding map of any client that is not a state is ever accepted as one: whatever k is bound
+   to after the history (the session of this user, of another user, a session at another issuer), presenting it
+   as a state is refused and nothing changes. *)
+Theorem C09_history_bound_key_never_a_state : forall lhash cfgs pre j k s o w' out,
+  map_of (run lhash (init_world cfgs) pre) j k = Some s ->
+  (forall i, ~ In (i, k) (issued pre)) ->
+  is_begin o = false -> (forall s', op_mentions o s' = true -> s' = k) ->
+  step lhash (run lhash (init_world cfgs) pre) o = (w', out) ->
+  w' = run lhash (init_world cfgs) pre /\ (forall stored, out = Ok stored -> has_key (PS "error") stored = true).
+Proof. exact history_bound_key_never_a_state. Qed.
+Print Assumptions C09_history_bound_key_never_a_state.
+
+(* The look-ups of the RPHandler (state2issuer, hence get_client_from_session_key and every routed call) find only
+   keys of record stores; after any history of a handler with one client per issuer a value never issued as a
+   state resolves to no issuer and to no session of any client. *)
+Theorem C09_lookup_finds_record_keys_only : forall w st v,
+  state2issuer w st = Some v -> exists i c, In (i, c) w /\ has_key st (cl_db c) = true.
+Proof. exact state2issuer_record_key. Qed.
+Print Assumptions C09_lookup_finds_record_keys_only.
+
+Theorem C09_history_lookup_unissued : forall lhash cfgs pre k,
+  NoDup (List.map fst cfgs) -> (forall i, ~ In (i, k) (issued pre)) ->
+  probe_out (run lhash (init_world cfgs) pre) (PIssuer k) = Ok [] /\
+  forall i, probe_out (run lhash (init_world cfgs) pre) (PSession i k) = Err KeyError.
+Proof. exact history_lookup_unissued. Qed.
+Print Assumptions C09_history_lookup_unissued.
+
+(* non-vacuity: two issuers; flows S1/N1 (diana, code redeemed: diana -> S1 joins the map) and S2/N2 at issuer 1,
+   T1/M1 at issuer 2.  The keys of the maps are N1, N2, diana, M1; each of them is bound (hypothesis of the
+   theorems) and none is a record key.  Presented as a state - in an authorization response with a code, with the
+   genuine ID Token of the flow the nonce belongs to, to get_tokens / refresh / user info, routed - every one is
+   refused with KeyError and the world unchanged; an error response naming N2 is handed back, world unchanged; the
+   look-ups find nothing; the genuine response of S2 is still accepted afterwards. *)
+Example C09_bound_keys_nonvacuous :
+  let S1 := PS "S1" in let S2 := PS "S2" in let N1 := PS "N1" in let N2 := PS "N2" in
+  let w := run ex_lhash ex_world
+              [OBegin ex_iss S1 N1 (ex_req S1 N1); OBegin ex_iss S2 N2 (ex_req S2 N2);
+               OBegin ex_iss2 (PS "T1") (PS "M1") (ex_req (PS "T1") (PS "M1"));
+               OAuthz ex_iss (ex_authz_resp S1 None) ex_now;
+               OToken ex_iss S1 (ex_token_resp (Some (ex_tok_te N1 (PS "diana")))) ex_now] in
+  map_of w ex_iss N1 = Some S1 /\ map_of w ex_iss N2 = Some S2 /\ map_of w ex_iss (PS "diana") = Some S1 /\
+  map_of w ex_iss2 (PS "M1") = Some (PS "T1") /\
+  List.forallb (fun k => negb (record_key w ex_iss k) && negb (record_key w ex_iss2 k)) [N1; N2; PS "diana"; PS "M1"] = true /\
+  List.forallb (fun k =>
+    res_eqb dict_eqb (snd (step ex_lhash w (OAuthz ex_iss (ex_authz_resp k None) ex_now))) (Err KeyError) &&
+    res_eqb dict_eqb (snd (step ex_lhash w (OToken ex_iss k (ex_token_resp None) ex_now))) (Err KeyError) &&
+    res_eqb dict_eqb (snd (step ex_lhash w (ORefresh ex_iss k (ex_token_resp None) ex_now))) (Err KeyError) &&
+    res_eqb dict_eqb (snd (step ex_lhash w (OUserinfo ex_iss k [(PS "sub", VStr (PS "diana"))]))) (Err KeyError) &&
+    res_eqb dict_eqb (snd (step ex_lhash w (ORoutedToken k (ex_token_resp None) ex_now))) (Err KeyError) &&
+    res_eqb dict_eqb (snd (step ex_lhash w (ORoutedRefresh k (ex_token_resp None) ex_now))) (Err KeyError) &&
+    res_eqb dict_eqb (snd (step ex_lhash w (ORoutedUserinfo k [(PS "sub", VStr (PS "diana"))]))) (Err KeyError) &&
+    res_eqb dict_eqb (probe_out w (PIssuer k)) (Ok []) && res_eqb dict_eqb (probe_out w (PSession ex_iss k)) (Err KeyError))
+    [N1; N2; PS "diana"; PS "M1"] = true /\
+  step ex_lhash w (OAuthz ex_iss (ex_authz_resp N2 (Some (ex_tok_rs N2))) ex_now) = (w, Err KeyError) /\
+  fst (step ex_lhash w (OAuthz ex_iss (mkResp [(PS "state", VStr N2); (PS "error", VStr (PS "access_denied"))] None) ex_now)) = w /\
+  probe_out w (PIssuer S2) = Ok [(PS "iss", VStr ex_iss)] /\
+  is_ok (snd (step ex_lhash w (OAuthz ex_iss (ex_authz_resp S2 None) ex_now))) = true.
 Proof. vm_compute. repeat split. Qed.
 
 (* ---- hybrid and implicit flows: EVERY member of a front-channel response is bound to the flow of its state ----
